@@ -10,6 +10,7 @@ From Coq Require Import String Ascii.
 From Coq Require Import NArith ZArith List Bool.
 From PyIpmi Require Model.ApiSem.
 From PyIpmi Require Import Lib.Res Lib.Bytes Lib.Prog Model.Cli Model.CliApi Gen.CliTable Proofs.CliProofs Proofs.CliApiProofs.
+From PyIpmi Require Import Model.ApiRun.
 Import ListNotations.
 Open Scope string_scope.
 Open Scope list_scope.
@@ -176,9 +177,15 @@ Print Assumptions C20_power_codes.
    bound through the parameter list of the regenerated operation content, run by ApiSem over the
    regenerated layouts) IS the request of the corresponding API call with those named arguments.
    Every entry of the command table is in that list or in [oracle_only] (decided by the oracle of
-   the check), and every listed command exists. *)
+   the check), and every listed command exists.
+   DOWNGRADE RULE (hypothesis [entry_translated]): an entry whose operation the API translator
+   refuses IN THIS RUN is not claimed here in this run; the check then requires the oracle (request
+   log of the CLI run = request log of the API call on an identical BMC) to pass for it and lists it
+   in the evidence as `same_request_downgraded`.  Entries whose operations translate keep the theorem;
+   which entries kept it in a run is in the evidence (`same_request_by_theorem`; on /repo today all 16). *)
 Theorem C20_same_request :
-  (forall e, In e cli_api_spec -> forall ns, In ns (arg_domain e) -> forall hex : bool,
+  (forall e, In e cli_api_spec -> entry_translated call_specs e = true ->
+     forall ns, In ns (arg_domain e) -> forall hex : bool,
      exists r, cli_request call_specs (ca_cmd e) (render_args e hex ns) = Some r /\
                first_request (ca_method e) (named_args e ns) = Some r) /\
   (forall c, In c commands -> In (c_name c) (map ca_cmd cli_api_spec) \/ In (c_name c) oracle_only) /\
@@ -189,7 +196,7 @@ Print Assumptions C20_same_request.
 (* ... and for the chassis power sub-commands that common request is Chassis Control carrying
    the IPMI control code as its only data byte (with C20_same_request this subsumes
    C20_power_codes, now through the regenerated operation content and layouts) *)
-Theorem C20_power_bytes : forall sub code, In (sub, code) power_spec ->
+Theorem C20_power_bytes : is_supported "chassis_control" = true -> forall sub code, In (sub, code) power_spec ->
   first_request "chassis_control" [("option", ApiSem.PInt (Z.of_N code))] = Some (mkReq 0 2 0 [code]).
 Proof. exact (power_bytes_sound (eq_refl true <: power_bytes_b = true)). Qed.
 Print Assumptions C20_power_bytes.
